@@ -6,6 +6,7 @@ from typing import Any, Dict, List, Optional, Tuple
 
 from .. import wire
 from ..explore import Stats, bfs_histories, digest
+from ..introspect import guarded
 from ..world import HarnessError, World
 from .cachesearch import lib_full
 
@@ -158,30 +159,39 @@ class Search:
                     finished.append(log)
                     w.settle()
             now = w.now_ms
-            states = []
+            lives = {}
             for key, (b, log) in sorted(browsers.items()):
                 live = self.check_log(problems, log, key)
+                lives[key] = live
                 for t in sorted(b.types):
                     cached = sorted({r.alias.lower() for r in zc.cache.entries_with_name(t) if r.type == 12})
                     mine = sorted(n for (tt, n) in live if tt == t.lower())
                     if cached != mine:
                         problems.append(f"browser[{key}] type {t}: reported live {mine} but cache holds pointers {cached}")
                 problems.extend(log.problems)
-                qs = b.query_scheduler
-                heap = sorted((q.alias.lower(), round(q.when_millis - now, 3), round(q.expire_time_millis - now, 3),
-                               q.cancelled) for q in qs._query_heap)
-                nxt = None if qs._next_run is None else round(qs._next_run.when() * 1000 - now, 3)
-                # (the schedule's key is whatever the library uses - a name, or a (type, instance) pair since 02c9dfc)
-                states.append((key, sorted(live), heap, sorted((repr(a).lower(), round(q.when_millis - now, 3))
-                                                               for a, q in qs._next_scheduled_for_alias.items()),
-                               qs._startup_queries_sent, nxt, sorted(b._pending_handlers.items(), key=repr)))
             for log in finished:
                 self.check_log(problems, log, "cancelled")
                 problems.extend(log.problems)
-            qh = sorted((q.name.lower(), q.type, round(t - now, 3), sorted(repr(lib_full(r, now)) for r in ka))
-                        for q, (t, ka) in zc.question_history._history.items())
-            canon = ([(k, [lib_full(v, now) for v in st.values()]) for k, st in sorted(zc.cache.cache.items())],
-                     round((now - 1_000_000) % 10000, 3), states, qh, skipped)
+
+            def precise() -> Any:
+                # reads private fields of the scheduler and the question history; if their layout is not the one known
+                # here the history is not de-duplicated at all (mc/introspect.py)
+                states = []
+                for key, (b, log) in sorted(browsers.items()):
+                    qs = b.query_scheduler
+                    heap = sorted((q.alias.lower(), round(q.when_millis - now, 3), round(q.expire_time_millis - now, 3),
+                                   q.cancelled) for q in qs._query_heap)
+                    nxt = None if qs._next_run is None else round(qs._next_run.when() * 1000 - now, 3)
+                    # (the schedule's key is whatever the library uses - a name, or a (type, instance) pair since 02c9dfc)
+                    states.append((key, sorted(lives[key]), heap, sorted((repr(a).lower(), round(q.when_millis - now, 3))
+                                                                         for a, q in qs._next_scheduled_for_alias.items()),
+                                   qs._startup_queries_sent, nxt, sorted(b._pending_handlers.items(), key=repr)))
+                qh = sorted((q.name.lower(), q.type, round(t - now, 3), sorted(repr(lib_full(r, now)) for r in ka))
+                            for q, (t, ka) in zc.question_history._history.items())
+                return ([(k, [lib_full(v, now) for v in st.values()]) for k, st in sorted(zc.cache.cache.items())],
+                        round((now - 1_000_000) % 10000, 3), states, qh, skipped)
+
+            canon = guarded(precise, lambda: ("history", tuple(hist)))
             excs = w.exceptions()
             if excs:
                 problems.append(f"exception in the event loop: {excs[0]}")
